@@ -42,7 +42,10 @@ RULE = (
     "MDA, parallel stages, listing order, optional inputs and whether cycle groups / self-coupled nodes are handed to MDAChain "
     "wrapped in one MDOChain node, and whether the setting sub_coupling_structures is given (one CouplingStructure per inner "
     "MDA in sequence order); reference = numpy.linalg.solve of (I-B) y = A ext + c. "
-    "Duplicated output names: Hypothesis draws 2-4 affine members writing 1-2 of three names from a shared input, a listing order "
+    "Nodes may also carry a state variable (residual_to_state_variable) in every generator; the n<=3 enumeration is repeated with "
+    "state variables on all / some nodes. The composition part also builds a direct MDOInitializationChain where some (consumer, "
+    "input) pairs have no default while other consumers of the same variable keep theirs. "
+    "Duplicated output names (optionally use_deep_copy=True with members overwriting their own input copy): Hypothesis draws 2-4 affine members writing 1-2 of three names from a shared input, a listing order "
     "and a consumer; MDOParallelChain, MDOChain([MDOParallelChain, consumer]) and MDOChain(members, consumer) must return the value "
     "of the member listed LAST for every name (non-trivial: the writers of a name disagree). "
     "Non-trivial = (graph, listing order) with an SCC of size >=2 and >=2 stages (composition: additionally "
@@ -64,6 +67,13 @@ ASSUMPTIONS = [
     "(own simulation) can compute them; never on wrapped MDOChain nodes",
     "members of a parallel chain writing the same name: the priority of the last listed member is read from MDOParallelChain._execute's "
     "comment and from the sequential MDOChain semantics",
+    "state variables (residual_to_state_variable; both input and output of their discipline) are not couplings and make no "
+    "self-loop for the reference; they are tolerated in strong_couplings / all_couplings / weak_couplings where the wide reading "
+    "puts them; in the composition part a state passes through unchanged with a zero residual",
+    "direct MDOInitializationChain with partial defaults: only the schedule (a discipline runs after the producers of its inputs "
+    "without default) is required in general; the data are compared with the whole-system solve when the order respects every edge "
+    "of an acyclic system",
+    "in-place writers are used only inside MDOParallelChain(use_deep_copy=True, n_processes=1)",
     "n >= 10 nodes are not explored",
 ]
 
@@ -75,7 +85,7 @@ def _realise(p) -> Realisation:
     n = int(p["n"])
     edges = edges_from_code(n, int(p["code"])) if "code" in p else p["edges"]
     x_nodes = [i % n for i in p.get("x_nodes", [])]
-    return Realisation(n, edges, p.get("two_out"), x_nodes, p.get("opt"))
+    return Realisation(n, edges, p.get("two_out"), x_nodes, p.get("opt"), p.get("state"))
 
 
 def _orders(p, n):
@@ -148,21 +158,23 @@ def check_structure(ctx, cs, listed, node_of, real: Realisation, order):
         ctx.check(low <= set(val) <= up, attr,
                   f"{attr}={sorted(val)} but must contain {sorted(low)} and be contained in {sorted(up)}", **info)
         exact = exact and low == up
-    # (5b) per-discipline accessors: strong=True is the exact strong set restricted to the discipline; strong=False must be
-    # the discipline's names among the structure's own all_couplings (itself bounded above), so that the accessors agree
-    # with each other whichever reading of a self-only variable is taken, and it contains the strong ones
-    strong_exact = real.strong_couplings_bounds()[0]
+    # (5b) per-discipline accessors: strong=True / False must be the discipline's names among the structure's own
+    # strong_couplings / all_couplings (themselves bounded by the reference above), so that the accessors agree with the
+    # global sets whichever reading of a self-only or state variable is taken; the strong ones are among the others
+    strong_low, strong_up = real.strong_couplings_bounds()
+    strong_got = set(cs.strong_couplings)
     all_got = set(cs.all_couplings)
     for d in listed:
         node = node_of[id(d)]
-        for kind, names in (("output", real.outs[node]), ("input", real.ins[node])):
+        for kind, names in (("output", real.full_outs(node)), ("input", real.full_ins(node))):
             getter = cs.get_output_couplings if kind == "output" else cs.get_input_couplings
             got_strong = list(getter(d, strong=True))
             got_all = list(getter(d, strong=False))
-            ref_strong = sorted(set(names) & strong_exact)
+            ref_strong = sorted(set(names) & strong_got)
             ref_all = sorted(set(names) & all_got)
-            ctx.check(sorted(got_strong) == ref_strong and len(got_strong) == len(set(got_strong)), f"get_{kind}_couplings",
-                      f"node {node}: get_{kind}_couplings(strong=True)={got_strong}, reference {ref_strong}", **info)
+            ctx.check(sorted(got_strong) == ref_strong and len(got_strong) == len(set(got_strong))
+                      and set(names) & strong_low <= set(got_strong) <= set(names) & strong_up, f"get_{kind}_couplings",
+                      f"node {node}: get_{kind}_couplings(strong=True)={got_strong}, reference {sorted(set(names) & strong_low)}", **info)
             ctx.check(sorted(got_all) == ref_all and len(got_all) == len(set(got_all)), f"get_{kind}_couplings",
                       f"node {node}: get_{kind}_couplings(strong=False)={got_all}, but its names among all_couplings are {ref_all}", **info)
             ctx.check(set(got_strong) <= set(got_all), f"get_{kind}_couplings",
@@ -182,7 +194,7 @@ def classify_graph(ctx, real: Realisation, n_stages: int, exact: bool, p, order)
         ctx.cls("stages>=2")
     if has_scc and n_stages >= 2:
         ctx.cls("NONTRIVIAL_scc>=2_and_stages>=2")
-        ctx.nontriv(("graph", n, p.get("code"), p.get("edges"), p.get("two_out"), p.get("x_nodes"), p.get("dup"), p.get("opt"), order))
+        ctx.nontriv(("graph", n, p.get("code"), p.get("edges"), p.get("two_out"), p.get("x_nodes"), p.get("dup"), p.get("opt"), p.get("state"), order))
     if sum(1 for i in range(n) if len(real.group_of(i)) >= 2 and real.comp[i] == i) >= 2:
         ctx.cls("two_or_more_scc>=2")
     if any(real.self_loop):
@@ -201,6 +213,10 @@ def classify_graph(ctx, real: Realisation, n_stages: int, exact: bool, p, order)
         ctx.cls("coupling_sets_pinned_exactly")
     if any(real.producer.get(name) not in (None, j) for j, name in real.optional):
         ctx.cls("edge_through_optional_input")
+    if any(real.state):
+        ctx.cls("node_with_state_variable")
+        if any(real.state[i] and real.self_loop[i] for i in range(n)):
+            ctx.cls("state_variable_and_genuine_self_loop")
     strong = real.strong_couplings_bounds()[0]
     if any(real.is_strong(i) and name not in strong and any(real.is_strong(j) and j != i for j in real.consumers(name))
            for name, i in real.producer.items()):
@@ -252,6 +268,14 @@ def small_graph_payloads(ctx):
             edges = [[i, j, 2 if (i == 0 and j == 2) else 1] for i, j, _ in edges_from_code(3, code)]
             yield {"n": 3, "edges": edges, "two_out": [True, False, False], "orders": [0, -1], "dup": False}
         k += 1
+    # every graph with 1..3 nodes where all / some nodes also have a state variable (residual_to_state_variable)
+    for n in (1, 2, 3):
+        for code in range(2 ** (n * n)):
+            if k % ctx.n_shards == ctx.shard:
+                yield {"n": n, "code": code, "orders": [0, -1], "dup": False, "state": [1]}
+                if n > 1:
+                    yield {"n": n, "code": code, "orders": [1], "dup": False, "state": [0, 1, 0]}
+            k += 1
     # every graph with 2 and 3 nodes again with optional (non-required, defaulted) inputs: all of them, then a mixed pattern
     for n in (2, 3):
         for code in range(2 ** (n * n)):
@@ -319,7 +343,8 @@ def random_graphs(draw):
     order = draw(st.permutations(list(range(n))))
     return {"n": n, "edges": edges, "two_out": two_out, "x_nodes": x_nodes, "orders": [list(order)],
             "dup": draw(st.integers(0, 4)) == 0,
-            "opt": draw(st.one_of(st.just([]), st.lists(st.integers(0, 1), min_size=1, max_size=7)))}
+            "opt": draw(st.one_of(st.just([]), st.lists(st.integers(0, 1), min_size=1, max_size=7))),
+            "state": draw(st.one_of(st.just([]), st.just([]), st.lists(st.integers(0, 1), min_size=1, max_size=4)))}
 
 
 # --------------------------------------------------------------------------- composition part
@@ -386,6 +411,10 @@ def systems(draw):
         # with initialize_defaults: coupling inputs (flags cycled over the (consumer, coupling input) pairs) that get NO default
         # value; MDAChain has to compute them with its initialization chain
         "no_default": draw(st.lists(st.sampled_from([1, 1, 0]), min_size=1, max_size=6)) if init_mode else [],
+        # nodes that also carry a state variable (residual_to_state_variable), flags cycled over the nodes
+        "state": draw(st.one_of(st.just([]), st.just([]), st.lists(st.integers(0, 1), min_size=1, max_size=3))),
+        # direct MDOInitializationChain: (consumer, coupling input) pairs without default (other consumers keep theirs)
+        "init_flags": draw(st.lists(st.sampled_from([1, 0, 0]), min_size=2, max_size=6)),
         # give MDAChain the non-default setting sub_coupling_structures: one CouplingStructure per inner MDA, in sequence order
         "sub_cs": draw(st.booleans()),
         # cycle groups / self-coupled nodes (index modulo their number) handed to MDAChain as ONE MDOChain node
@@ -402,6 +431,12 @@ def _compare(ctx, sub, out, ref, system, rtol, what, order):
         tol = rtol * (1.0 + float(np.max(np.abs(ref[name]))))  # tolerance: rtol * (1 + |y|_inf)
         ctx.check(err <= tol, sub, f"{what}: {name}={got.tolist()} but the whole-system solve gives {ref[name].tolist()} (err {err:.3e} > {tol:.1e})",
                   order=order)
+    for i in range(system.real.n):
+        if system.real.state[i]:
+            # the state passes through unchanged (default 0) and its residual is zero
+            for name in (f"s{i}", f"r{i}"):
+                ctx.check(name in out and np.array_equal(np.asarray(out[name], dtype=float), np.zeros(1)), sub,
+                          f"{what}: state/residual variable {name}={out.get(name)!r}, expected [0.]", order=order)
 
 
 def feasible_missing_defaults(real: Realisation, system, flags, order):
@@ -435,7 +470,7 @@ def case_composition(p, ctx):
     from gemseo.mda.mda_chain import MDAChain
 
     n = int(p["n"])
-    real = Realisation(n, p["edges"], p.get("two_out"), [i % n for i in p["x_nodes"]], p.get("opt"))
+    real = Realisation(n, p["edges"], p.get("two_out"), [i % n for i in p["x_nodes"]], p.get("opt"), p.get("state"))
     system = LinearSystem(real, p["sizes"], p["coef"], float(p["q"]), int(p["nx"]))
     order = [int(v) for v in p["order"]]
     ext = {}
@@ -537,6 +572,36 @@ def case_composition(p, ctx):
         out_c = init.execute({k: v.copy() for k, v in ext.items()})
         _compare(ctx, "initialization_chain", out_c, ref, system, 1e-12, "MDOInitializationChain", order)
         ctx.cls("comp_acyclic")
+    # (d) MDOInitializationChain on the same disciplines, SOME (consumer, coupling input) pairs having no default value while the
+    # other consumers of the same variable keep theirs: its order must run every discipline after the producers of its inputs
+    # without default; when that order happens to respect every edge of an acyclic system the data are the whole-system ones
+    flags = p.get("init_flags") or [1, 0]
+    missing_d = feasible_missing_defaults(real, system, flags, order)
+    if missing_d:
+        discs_d = system.disciplines(dup, no_default=missing_d)
+        init_d = MDOInitializationChain([discs_d[i] for i in order], available_data_names=list(ext))
+        ctx.check(sorted(d.node for d in init_d.disciplines) == list(range(n)), "initialization_chain_partial_defaults",
+                  "the initialization chain does not hold every discipline exactly once", order=order)
+        seen_d = set(ext)
+        topological = True
+        for d in init_d.disciplines:
+            lacking = [u for u in real.ins[d.node] if (d.node, u) in missing_d and u not in seen_d]
+            ctx.check(not lacking, "initialization_chain_partial_defaults",
+                      f"node {d.node} has no default for {lacking} and is scheduled before their producers", order=order)
+            topological = topological and all(u in seen_d for u in real.ins[d.node])
+            seen_d.update(real.outs[d.node])
+        out_d = init_d.execute({k: v.copy() for k, v in ext.items()})
+        for name in system.out_names:
+            ctx.check(name in out_d, "initialization_chain_partial_defaults", f"output {name} is missing", order=order)
+        if acyclic and topological:
+            _compare(ctx, "initialization_chain_partial_defaults", out_d, ref, system, 1e-12, "MDOInitializationChain(partial defaults)", order)
+        ctx.cls("comp_init_chain_with_partial_defaults")
+        consumers_of = {}
+        for j in range(n):
+            for u in real.ins[j]:
+                consumers_of.setdefault(u, []).append(j)
+        if any(any((j2, u) not in missing_d for j2 in consumers_of[u]) for j, u in missing_d):
+            ctx.cls("comp_init_chain_variable_with_and_without_default")
     has_scc = any(len(real.group_of(i)) >= 2 for i in range(n))
     ctx.cls(f"comp_n={n}", f"comp_inner={p['inner']}")
     if has_scc:
@@ -545,7 +610,7 @@ def case_composition(p, ctx):
         ctx.cls("comp_stages>=2")
     if has_scc and n_stages >= 2:
         ctx.cls("comp_NONTRIVIAL")
-        ctx.nontriv(("comp", n, p["edges"], p.get("two_out"), p["x_nodes"], order, p["sizes"], p["coef"], p["q"], p["inner"], p.get("opt"), p.get("wrap")))
+        ctx.nontriv(("comp", n, p["edges"], p.get("two_out"), p["x_nodes"], order, p["sizes"], p["coef"], p["q"], p["inner"], p.get("opt"), p.get("wrap"), p.get("state")))
     if any(real.self_loop[i] and len(real.group_of(i)) == 1 for i in range(n)):
         ctx.cls("comp_self_loop_singleton")
     if any(real.self_loop[i] and len(real.group_of(i)) > 1 for i in range(n)):
@@ -556,6 +621,10 @@ def case_composition(p, ctx):
         ctx.cls("comp_duplicated_names")
     if wrapped:
         ctx.cls("comp_cycle_group_wrapped_in_one_MDOChain_node")
+    if any(real.state):
+        ctx.cls("comp_node_with_state_variable")
+        if any(real.state[i] and real.self_loop[i] for i in range(n)):
+            ctx.cls("comp_state_variable_and_genuine_self_loop")
     if missing:
         ctx.cls("comp_initialize_defaults_with_missing_defaults")
         if any(real.is_strong(j) and not real.is_strong(real.producer[u]) for j, u in missing):
@@ -588,6 +657,9 @@ def shared_outputs(draw):
         "consumer": draw(st.lists(st.sampled_from([-2, -1, 1, 2]), min_size=1, max_size=4)),
         "threads": draw(st.sampled_from([1, 1, 2])),
         "dup": draw(st.integers(0, 3)) == 0,
+        # use_deep_copy=True: every member gets its own copy of the inputs, members flagged in 'inplace' overwrite theirs
+        "deep_copy": draw(st.booleans()),
+        "inplace": draw(st.lists(st.integers(0, 1), min_size=1, max_size=4)),
     }
 
 
@@ -599,6 +671,7 @@ def case_parallel_priority(p, ctx):
     from gemseo.core.discipline import Discipline
 
     sizes = {name: int(p["sizes"][k]) for k, name in enumerate(POOL)}
+    inplace = p.get("inplace") or [0]
     nx = int(p["nx"])
     x = np.array([v / 2.0 for v in p["x"]])
     order = [int(v) for v in p["order"]]
@@ -623,15 +696,19 @@ def case_parallel_priority(p, ctx):
     class _Member(Discipline):
         default_grammar_type = Discipline.GrammarType.SIMPLE
 
-        def __init__(self, k):
+        def __init__(self, k, may_write_inputs=False):
             super().__init__("D" if p["dup"] else f"D{k}")
             self.k = k
+            self.scramble = may_write_inputs and bool(int(inplace[k % len(inplace)]))
             self.io.input_grammar.update_from_names(["x"])
             self.io.output_grammar.update_from_names(list(maps[k]))
             self.io.input_grammar.defaults["x"] = np.zeros(nx)
 
         def _run(self, input_data):
-            return {name: m @ np.asarray(input_data["x"], dtype=float) + c for name, (m, c) in maps[self.k].items()}
+            out = {name: m @ np.asarray(input_data["x"], dtype=float) + c for name, (m, c) in maps[self.k].items()}
+            if self.scramble:
+                input_data["x"][...] = 99.0 + self.k  # its own deep copy: must not be seen by the other members
+            return out
 
     class _Consumer(Discipline):
         default_grammar_type = Discipline.GrammarType.SIMPLE
@@ -663,9 +740,13 @@ def case_parallel_priority(p, ctx):
                       order=order)
 
     data = {"x": x.copy()}
-    out = MDOParallelChain([_Member(k) for k in order], n_processes=int(p["threads"])).execute(dict(data))
+    deep = bool(p.get("deep_copy"))
+    # in-place writers only with use_deep_copy=True (otherwise the inputs are read-only), run one after the other
+    threads = 1 if deep else int(p["threads"])
+    out = MDOParallelChain([_Member(k, deep) for k in order], n_processes=threads, use_deep_copy=deep).execute({"x": x.copy()})
     compare(out, written, "MDOParallelChain")
-    out = MDOChain([MDOParallelChain([_Member(k) for k in order], n_processes=int(p["threads"])), _Consumer()]).execute(dict(data))
+    ctx.check(np.array_equal(np.asarray(out["x"]), x), "parallel_priority", f"the chain input x was altered: {out['x']!r}", order=order)
+    out = MDOChain([MDOParallelChain([_Member(k, deep) for k in order], n_processes=threads, use_deep_copy=deep), _Consumer()]).execute({"x": x.copy()})
     compare(out, [*written, "z"], "MDOChain([MDOParallelChain, consumer])")
     out = MDOChain([*[_Member(k) for k in order], _Consumer()]).execute(dict(data))
     compare(out, [*written, "z"], "MDOChain(members, consumer)")
@@ -681,6 +762,10 @@ def case_parallel_priority(p, ctx):
         ctx.nontriv(("par", p))
     if order != sorted(order):
         ctx.cls("par_permuted_listing")
+    if deep:
+        ctx.cls("par_use_deep_copy")
+        if any(int(inplace[k % len(inplace)]) for k in order[:-1]):
+            ctx.cls("par_deep_copy_and_in_place_writer_before_another_member")
     ctx.sample({"oracle": "parallel_priority", "case": p})
 
 
